@@ -7,7 +7,7 @@ Local Open Scope N_scope.
 
 (* ---- the tie to the code: src/polyseed.c as TRANSLATED on this run (Gen/CApi.v) ---- *)
 From Coq Require Import String.
-From PS Require Import Base GFDefs PackDefs StoreDefs MiscDefs StrDefs LangDefs ApiDefs SpecDefs SpecApi GFProofs PackProofs StoreProofs RefineProofs RoundTrip CTieBase CTieLang CTiePhrase CTiePhraseEv CTieSplit CTieApi CTieDecode CTieEncode CTieLocals CTieInject CTieCmp CTieSearch CTieClosed CodeTheorems CodeMachine.
+From PS Require Import Base GFDefs PackDefs StoreDefs MiscDefs StrDefs LangDefs ApiDefs SpecDefs SpecApi GFProofs PackProofs StoreProofs RefineProofs RoundTrip TraceProofs FrameProofs CTieBase CTieLang CTiePhrase CTiePhraseEv CTieSplit CTieApi CTieDecode CTieEncode CTieLocals CTieInject CTieCmp CTieSearch CTieClosed CodeTheorems CodeMachine.
 From PS.Gen Require Import Consts PrivConsts Langs.
 From PS.Gen Require CFuns.
 From PS.Gen Require CApi.
@@ -48,6 +48,18 @@ Theorem C18_code_tie_api_keygen :
          [EvKdf (d_secret d) SECRET_BUFFER_SIZE (keygen_salt coin d) 32 KDF_NUM_ITERATIONS size].
 Proof. exact @tie_keygen. Qed.
 Print Assumptions C18_code_tie_api_keygen.
+
+(* ON THE CODE: every event of a call of the translated code goes through the table in place *)
+Theorem C18_code_tie_machine_uses_table :
+  forall (sgn : bool) (fuel : nat) (ext : Z -> list Z -> Z) (OKW : bytes -> Prop),
+         (forall (li : nat) (L : lang) (w : bytes),
+          OKW w -> nth_error langs li = Some L -> ext (Z.of_nat li) (zs w) = enc (lang_search sgn L w)) ->
+         (forall t : bytes, no_nul t -> (Datatypes.length t + 2 <= fuel)%nat -> OKW t) ->
+         (18 <= fuel)%nat ->
+         forall (st : state) (o : op),
+         op_ready sgn fuel st o -> forallb (ev_uses (st_deps st)) (snd (cstep sgn fuel ext st o)) = true.
+Proof. exact @code_uses_table. Qed.
+Print Assumptions C18_code_tie_machine_uses_table.
 
 (* polyseed_inject as translated (release build): the table in place afterwards is a copy of the one handed in, NULL time / alloc / free replaced each by its own libc default, every entry replaced, nothing kept from the previous table *)
 Theorem C18_code_tie_inject :
